@@ -484,7 +484,7 @@ class FNode(object):
         em = self._env.expression_manager
         return em.And(em.Or(self, *other), em.Not(em.And(self, *other)))
 
-    def __rxor__(self, other):
+    def __rxor__(self, *other):
         em = self._env.expression_manager
         return em.And(em.Or(*other, self), em.Not(em.And(*other, self)))
 
